@@ -112,7 +112,7 @@ def natives(interp_ref):
     def n_read_many(it, a, d, m):
         r = pm.deref(a[0])
         n = a[1]
-        kind = m.group(1)
+        kind = m.group(1) or m.group(2)
         out = []
         i = 0
         while True:
@@ -195,6 +195,28 @@ def natives(interp_ref):
         del v[n:]
         return UNIT
 
+    def n_index_range(it, a, d, m):
+        """v[..e], v[s..], v[s..e] on a list of concrete length with concrete bounds (bounds are list
+        lengths on every path here); out-of-range bounds panic like the real slice index"""
+        lst = pm.deref(a[0])
+        r = pm.deref(a[1])
+        kind = m.group(1) or m.group(2)
+        def conc(x):
+            v = x.v if isinstance(x, I) else x
+            if not isinstance(v, int):
+                raise Unsupported("slice with a symbolic bound")
+            return v
+        fields = [r[i] for i in range(2) if i in r] if isinstance(r, Struct) else list(getattr(r, "fields", []))
+        if kind == "RangeTo":
+            lo, hi = 0, conc(fields[0])
+        elif kind == "RangeFrom":
+            lo, hi = conc(fields[0]), len(lst)
+        else:
+            lo, hi = conc(fields[0]), conc(fields[1])
+        if lo > hi or hi > len(lst):
+            raise mirsym.Panic(f"slice index {lo}..{hi} out of range for length {len(lst)}", kind="panic")
+        return lst[lo:hi]
+
     def n_format(it, a, d, m):
         return Opaque("string")
 
@@ -203,6 +225,7 @@ def natives(interp_ref):
         (re.compile(r"<&\[.*\] as IntoIterator>::into_iter|core::slice::<impl \[.*\]>::iter"), lambda it, a, d, m: SliceIter(pm.deref(a[0]))),
         (re.compile(r"<std::slice::Iter<'_, .*> as Iterator>::next"), n_iter_next),
         (re.compile(r"(?:std::vec::)?Vec::<.*>::resize"), n_resize),
+        (re.compile(r"<(?:std::vec::)?Vec<.*> as Index<(?:std::ops::)?(RangeTo|RangeFrom|Range)<usize>>>::index|core::slice::index::<impl Index<(?:std::ops::)?(RangeTo|RangeFrom|Range)<usize>> for \[.*\]>::index"), n_index_range),
         (re.compile(r"format|alloc::fmt::format|std::fmt::format|<.* as ToString>::to_string"), n_format),
         (re.compile(r"Result::<StackOutputs, OutputError>::map_err::<DeserializationError, .*>"),
          lambda it, a, d, m: a[0] if pm.deref(a[0]).variant == "Ok" else En("Err", [En("InvalidValue", [], ty="DeserializationError")], ty="Result")),
@@ -222,7 +245,7 @@ def natives(interp_ref):
 TYPES = {
     # type -> (source file fragment, lengths quick, lengths thorough)
     "StackInputs": ("core/src/stack/inputs.rs", [0, 3, 4, 11, 12, 20, 140], [0, 1, 2, 3, 4, 5, 11, 12, 13, 20, 28, 36, 132, 140, 148]),
-    "StackOutputs": ("core/src/stack/outputs.rs", [0, 4, 8, 16, 24, 136], [0, 3, 4, 7, 8, 12, 16, 24, 32, 40, 135, 136, 144, 152, 160, 168, 176]),
+    "StackOutputs": ("core/src/stack/outputs.rs", [0, 4, 8, 16, 24, 136, 160], [0, 3, 4, 7, 8, 12, 16, 24, 32, 40, 135, 136, 144, 152, 160, 168, 176]),
     "Kernel": ("core/src/program/mod.rs", [0, 1, 2, 34], [0, 1, 2, 33, 34, 66]),
     "ProgramInfo": ("core/src/program/info.rs", [31, 32, 34, 66], [0, 31, 32, 33, 34, 66, 98]),
 }
@@ -383,6 +406,10 @@ def confirm(ty, bytes_, name, V, cov, expect):
         nat2 = masmsym.native([{"kind": "decode", "type": ty, "bytes": list(nat["reencoded"])}], "c19")[0]
         bad = nat2["status"] != "ok" or list(nat2["reencoded"]) != list(nat["reencoded"])
         text = f"accepted value re-encodes to {nat['reencoded']}, which decodes to {nat2}"
+    elif expect == "usable" and nat["status"] == "ok" and nat.get("valid") is False:
+        bad = True
+        text = (f"accepted by the native decoder although the value violates the validity rule of StackOutputs::new "
+                f"({nat.get('stack_len')} elements, {nat.get('addrs_len')} overflow addresses, all canonical field elements required)")
     else:
         text = ""
     if bad:
